@@ -2,6 +2,7 @@ package checkers
 
 import (
 	"go/ast"
+	"go/token"
 	"go/types"
 
 	"github.com/go-critic/go-critic/gsxrt"
@@ -17,6 +18,7 @@ var gsxSubjects = map[string]gsxSubject{
 	"appendAssign":   {builtin: "append", spelled: "append"},
 	"appendCombine":  {builtin: "append", spelled: "append"},
 	"newDeref":       {builtin: "new", spelled: "new"},
+	"rangeAppendAll": {builtin: "append", spelled: "append"},
 	"badRegexp":      {pkg: "regexp", spelled: "regexp"},
 	"regexpPattern":  {pkg: "regexp", spelled: "regexp"},
 	"regexpSimplify": {pkg: "regexp", spelled: "regexp"},
@@ -45,10 +47,20 @@ func gsxCallees(in *gsxInput, sub gsxSubject) []*ast.Ident {
 			}
 		}
 	}
-	fromStmt := func(s ast.Stmt) {
-		if as, ok := s.(*ast.AssignStmt); ok {
-			for _, r := range as.Rhs {
+	var fromStmt func(s ast.Stmt)
+	fromStmt = func(s ast.Stmt) {
+		switch s := s.(type) {
+		case *ast.AssignStmt:
+			for _, r := range s.Rhs {
 				fromCall(r)
+			}
+		case *ast.ExprStmt:
+			fromCall(s.X)
+		case *ast.RangeStmt:
+			if s.Body != nil {
+				for _, b := range s.Body.List {
+					fromStmt(b)
+				}
 			}
 		}
 	}
@@ -89,8 +101,9 @@ func gsxAPI(name string) {
 		return
 	}
 	for _, id := range ids {
-		obj, present := ctx.TypesInfo.Uses[id]
-		gsxrt.Assume(present) // go/types records every used identifier
+		// what go/types resolves the identifier to (an identifier is a use or a definition, never both)
+		obj := ctx.TypesInfo.ObjectOf(id)
+		gsxrt.Assume(obj != nil) // go/types records every identifier
 		gsxrt.Reached("resolved")
 		if sub.builtin != "" {
 			b, isBuiltin := obj.(*types.Builtin)
@@ -136,4 +149,42 @@ func gsxC20ExitAfterDefer() {
 	}
 	gsxrt.Reached("reported")
 	gsxrt.Assert(kind == 0, "api: a diagnostic about a standard package is issued for a user declaration that merely shares its name")
+}
+
+// gsxC20RangeAppendAll: rangeAppendAll's "append all data while range it" is
+// about the builtin append: when it reports for `out = A(out, xs...)` inside
+// `for range xs`, A resolves to the predeclared append.
+func gsxC20RangeAppendAll() {
+	c, ctx := gsxNewChecker("rangeAppendAll")
+	info := ctx.TypesInfo
+	info.Types = map[ast.Expr]types.TypeAndValue{}
+	info.Uses = map[*ast.Ident]types.Object{}
+	info.Defs = map[*ast.Ident]types.Object{}
+	ints := types.NewSlice(types.Typ[types.Int])
+	xsObj := types.NewVar(0, nil, "xs", ints)
+	outObj := types.NewVar(0, nil, "out", ints)
+	use := func(name string, obj types.Object, pos int) *ast.Ident {
+		id := &ast.Ident{Name: name, NamePos: token.Pos(pos)}
+		info.Uses[id] = obj
+		info.Types[id] = types.TypeAndValue{Type: ints}
+		return id
+	}
+	callee := &ast.Ident{Name: "append", NamePos: 50}
+	user := gsxrt.Bool("append is a user function")
+	if user {
+		info.Uses[callee] = types.NewFunc(0, nil, "append", types.NewSignatureType(nil, nil, nil, types.NewTuple(types.NewVar(0, nil, "a", ints), types.NewVar(0, nil, "b", ints)), types.NewTuple(types.NewVar(0, nil, "", ints)), true))
+	} else {
+		info.Uses[callee] = types.Universe.Lookup("append")
+	}
+	call := &ast.CallExpr{Fun: callee, Lparen: 56, Args: []ast.Expr{use("out", outObj, 57), use("xs", xsObj, 62)}, Ellipsis: 64, Rparen: 67}
+	assign := &ast.AssignStmt{Lhs: []ast.Expr{use("out", outObj, 44)}, TokPos: 48, Tok: token.ASSIGN, Rhs: []ast.Expr{call}}
+	stmt := &ast.RangeStmt{For: 30, Tok: token.ILLEGAL, X: use("xs", xsObj, 40), Body: &ast.BlockStmt{Lbrace: 43, List: []ast.Stmt{assign}, Rbrace: 70}}
+	v := gsxrt.Field(gsxrt.Field(c, "fileWalker"), "visitor").(interface{ VisitStmt(ast.Stmt) })
+	v.VisitStmt(stmt)
+	gsxrt.Reached("visited")
+	if len(gsxWarnings(c)) == 0 {
+		return
+	}
+	gsxrt.Reached("reported")
+	gsxrt.Assert(!user, "api: a diagnostic about a builtin is issued for a user declaration that merely shares its name")
 }
